@@ -72,7 +72,8 @@ impl Ctx {
     }
     pub fn fail(&self, property: &str, class: &str, what: String, replay: String) {
         let mut f = self.fails.lock().unwrap();
-        if f.len() < 200 {
+        // cap per property (an area may serve several properties; one must not starve the other)
+        if f.iter().filter(|x| x.property == property).count() < 200 {
             f.push(Fail { property: property.into(), class: class.into(), what, replay });
         }
         drop(f);
